@@ -45,7 +45,7 @@ type Harness struct {
 	Property    string
 	Level       string // MANIFEST category
 	Scenarios   func(tier string) []Scenario
-	Body        func(sc Scenario) func()                                       // the closed system; runs as thread 0
+	Body        func(sc Scenario) func()                                        // the closed system; runs as thread 0
 	Judge       func(sc Scenario, r *mcrt.Result) (outcome string, f []Finding) // oracle for one finished execution
 	Assumptions []string
 	Rule        string
